@@ -116,12 +116,23 @@ def _missing(ci: int, in_tx: bool, follow: int) -> bool:
         c2.execute("insert into t2 values (2)")
         if c2.sqlstate is not None or c2.rowcount != 1:
             return False
-    else:
+    elif follow == 2:
         try:
             cur.execute("select a from nosuch2")
             return False
         except snowflake.connector.errors.ProgrammingError as e2:
             if e2.errno != 2003 or cur.sqlstate != "42S02":
+                return False
+    else:
+        # the next execute resets sqlstate even when it stops early for a reason that is not a Snowflake error
+        bad_sql = ["select (", "select 'abc", "select to_decimal(a, 'TM9') from t1"][follow - 3]
+        try:
+            cur.execute(bad_sql)
+            return False
+        except snowflake.connector.errors.ProgrammingError:
+            return False
+        except Exception:  # noqa: BLE001
+            if cur.sqlstate is not None:
                 return False
     if in_tx:
         cur.execute("rollback")
@@ -135,17 +146,17 @@ def _missing(ci: int, in_tx: bool, follow: int) -> bool:
     encodes=["fakesnow.cursor.FakeSnowflakeCursor.execute/_execute (exception translation, sqlstate, ordering of session updates)", "fakesnow.transforms.set_schema"],
     bounds="32 statements naming a missing table / view / schema / database or an existing object (SELECT incl. joins and subqueries, INSERT, "
     "INSERT..SELECT, UPDATE, DELETE, TRUNCATE, DROP, ALTER, DESCRIBE, CREATE TABLE/VIEW/SCHEMA, CTAS, USE DATABASE/SCHEMA) at every "
-    "qualification level, plus 3 controls that must succeed x inside/outside an open transaction x 3 follow-up uses of the connection",
+    "qualification level, plus 3 controls that must succeed x inside/outside an open transaction x 6 follow-up uses of the connection (success, DML on another cursor, another Snowflake error, and three executes that stop early with a non-Snowflake error: sqlstate must be reset by each)",
     timeout=(300, 600),
     stubs=["K1-K4 vf.duckstub.Engine"],
     shards=(8, 8),
 )
 def missing_reference(ci: int, in_tx: bool, follow: int) -> bool:
     """
-    pre: 0 <= ci < len(CASES) and 0 <= follow <= 2 and (SHARD < 0 or ci % 8 == SHARD)
+    pre: 0 <= ci < len(CASES) and 0 <= follow <= 5 and (SHARD < 0 or ci % 8 == SHARD)
     post: _
     """
-    return done(fast.native(_missing, fast.pick(ci, len(CASES)), bool(fast.pick(in_tx, 2)), fast.pick(follow, 3)))
+    return done(fast.native(_missing, fast.pick(ci, len(CASES)), bool(fast.pick(in_tx, 2)), fast.pick(follow, 6)))
 
 
 def _real_missing(a: dict):
